@@ -335,6 +335,8 @@ class Seq:
                     continue
                 elif op == "getitem_int":
                     i = r.randrange(len(a.kcals))
+                    # the index as a python int or as the numpy integer an arange / argmax hands out
+                    i = r.choice([i, i, np.int64(i), np.int32(i), np.intp(i)])
                     res = a[i]
                     self.check_result(op, res, [u.replace(" each month", " per month") for u in labels(a)], False, [a], [sa], "[%d]" % i)
                 elif op == "getitem_slice":
@@ -344,7 +346,8 @@ class Seq:
                         continue
                     self.check_result(op, res, labels(a), True, [a], [sa], "[%d:]" % i)
                 elif op in ("get_month", "get_first_month"):
-                    res = a.get_month(r.randrange(len(a.kcals))) if op == "get_month" else a.get_first_month()
+                    j = r.randrange(len(a.kcals))
+                    res = a.get_month(r.choice([j, np.int64(j)])) if op == "get_month" else a.get_first_month()
                     self.check_result(op, res, [u.replace(" each month", " per month") for u in labels(a)], False, [a], [sa])
                 elif op in ("sum", "min_all", "max_all"):
                     res = {"sum": a.get_nutrients_sum, "min_all": a.get_min_all_months, "max_all": a.get_max_all_months}[op]()
